@@ -50,6 +50,7 @@ class Lib:
         self.protos = proto.parse_headers()
         self._fn = {}
         self._live = []
+        self.sizes = {}
         self.fill = 0xA5
 
     # ---- functions -------------------------------------------------------
@@ -95,6 +96,7 @@ class Lib:
         if n:
             ctypes.memset(p, self.fill if fill is None else fill, n)
         self._live.append(p)
+        self.sizes[p] = n
         return p
 
     def mk(self, data):
@@ -103,6 +105,7 @@ class Lib:
         if n:
             _memmove(p, bytes(data), n)
         self._live.append(p)
+        self.sizes[p] = n
         return p
 
     def cstr(self, s):
@@ -121,6 +124,7 @@ class Lib:
         for p in self._live:
             _libc.free(p)
         self._live = []
+        self.sizes = {}
 
     def free_one(self, p):
         self._live.remove(p)
